@@ -197,11 +197,11 @@ func init() {
 			// thousands of small segments are pending (back-pressure must not lose anything)
 			stall := genC01(c.Rand, false)
 			stall.MaxChunk, stall.Multiplex = 0, 1
-			many := make([]int, 5000)
+			many := make([]int, 6000)
 			for j := range many {
 				many[j] = 16
 			}
-			stall.Scripts = []sim.Script{{ClientWrites: many, ServerWrites: []int{100}, MaxRead: 65536, ServerStallMs: 6500},
+			stall.Scripts = []sim.Script{{ClientWrites: many, ServerWrites: []int{100}, MaxRead: 65536, ServerStallMs: 9000},
 				{ClientWrites: []int{1000, 50000}, ServerWrites: []int{20000}, MaxRead: 1500}}
 			cases = append(cases, stall)
 			n = len(cases)
